@@ -393,9 +393,10 @@ NoRepeat(ks) == \A i, j \in {k \in 3..Len(ks) : k % 2 = 1} : (i # j /\ ~(IsA(ks[
 UsesOuterWild(ks) == \E i \in {k \in 3..Len(ks) : k % 2 = 1} : IsA(ks[i]) /\ Txt(ks[i]) \in {"__", "___"}
 
 \* (defcfg ... process-unmapped-keys yes ...), read from the text
-Pum(items) == \E i \in 1..Len(items) : HeadIs(items[i], "defcfg") /\
+CfgYes(items, opt) == \E i \in 1..Len(items) : HeadIs(items[i], "defcfg") /\
                  \E k \in 2..(Len(Kids(items[i])) - 1) :
-                    Kids(items[i])[k] = At("process-unmapped-keys") /\ Kids(items[i])[k + 1] = At("yes")
+                    Kids(items[i])[k] = At(opt) /\ Kids(items[i])[k + 1] = At("yes")
+Pum(items) == CfgYes(items, "process-unmapped-keys")
 
 \* a layer: <<"layer", name, options, row over defsrc, explicit pairs outside defsrc, action of all other keys>>.
 \* On a key outside defsrc the transparent action `_` is the same as no mapping at all (no block-unmapped-keys here).
@@ -631,6 +632,9 @@ StepLayerMap(cfg, loc) ==
 \* pos \in 0..(number of listed keys): the wildcard pair stands after `pos` explicit pairs - first, middle or last;
 \* the documentation gives the position no meaning.  `__`/`___` need (defcfg process-unmapped-keys yes).
 RawPum(cfg) == LET xs == AllItems(cfg) IN Pum([i \in 1..Len(xs) |-> Inner(xs[i])])
+\* with (defcfg block-unmapped-keys yes) an unlisted key outside defsrc is blocked, not transparent: `__ _` would
+\* change the layer, so the `__` / `___` variants are offered only without it
+RawBlk(cfg) == LET xs == AllItems(cfg) IN CfgYes([i \in 1..Len(xs) |-> Inner(xs[i])], "block-unmapped-keys")
 CanLayerMapW(cfg, loc, w, G, pos) ==
    /\ CanLayerMap(cfg, loc)
    /\ LET ks == Kids(Inner(ItemAt(cfg, loc)))  src == RawSrc(cfg) IN
@@ -638,8 +642,8 @@ CanLayerMapW(cfg, loc, w, G, pos) ==
       /\ \A i, j \in 1..Len(src) : i # j => src[i] # src[j]
       /\ pos \in 0..(Len(src) - Cardinality(G))
       /\ CASE w = "_"   -> G # {} /\ \A i, j \in G : ks[i + 2] = ks[j + 2]
-           [] w = "__"  -> G = {} /\ RawPum(cfg)
-           [] w = "___" -> RawPum(cfg) /\ \A i \in G : ks[i + 2] = At("_")
+           [] w = "__"  -> G = {} /\ RawPum(cfg) /\ ~RawBlk(cfg)
+           [] w = "___" -> RawPum(cfg) /\ ~RawBlk(cfg) /\ \A i \in G : ks[i + 2] = At("_")
            [] OTHER -> FALSE
 RECURSIVE ListedPairs(_, _, _, _)
 ListedPairs(src, ks, G, k) == IF k > Len(src) THEN <<>>
